@@ -19,43 +19,77 @@ Proof. exact running_le_njob_proof. Qed.
 
 (* ---- resources ---------------------------------------------------------------------------- *)
 
+(* The two shape flags are generated from the source (Step.after_recycle, Step.initialize_row,
+   Workflow.define_step): recycle_keeps_inflight = a step whose job is in flight keeps state, _holding and
+   step_resource rows when it is declared again; define_rejects_inflight = such a declaration is refused.
+   step / apply / run / quiet are the model instantiated with the generated flags. *)
+Definition C12_repaired : bool := recycle_keeps_inflight || define_rejects_inflight.
+
 (* FULL statement (all histories of the faithful model): *)
 Definition C12_resources_full : Prop :=
   forall (s0 : sys) (evs : list event), Inv s0 ->
     forall r, (cmd_used r (db (run s0 evs)) <= availz (avail s0) r)%N.
 
-(* It is FALSE of the code as modelled: Workflow.define_step recycles a detached step whose
-   command is still executing (Step.after_recycle replaces its step_resource rows;
-   Step.initialize_row resets its row to PENDING). Two witnesses, both replayed on the real
-   serve() by the oracle. *)
+(* It holds exactly when the source has one of the repaired shapes ... *)
+Theorem C12_resources_full_iff_repaired : C12_resources_full <-> C12_repaired = true.
+Proof. exact (resources_full_iff_repaired recycle_keeps_inflight define_rejects_inflight). Qed.
+
+(* ... in particular, with either repair, for every start state satisfying Inv and EVERY history
+   (no hypothesis on the history): units held by executing commands never exceed what is available. *)
+Theorem C12_resources_never_overcommitted :
+  forall keep rej, keep || rej = true ->
+  forall (s0 : sys) (evs : list event), Inv s0 ->
+    forall r, (cmd_used r (db (run_gen keep rej s0 evs)) <= availz (avail s0) r)%N.
+Proof. exact resources_full_of_repaired. Qed.
+
+(* It is FALSE of the unrepaired shape (the code of /repo as long as both flags are false, finding D21):
+   Workflow.define_step recycles a detached step whose command is still executing (Step.after_recycle
+   replaces its step_resource rows; Step.initialize_row resets its row to PENDING). Two witnesses,
+   both replayed on the real serve() by the oracle. *)
 Theorem C12_resources_full_refuted_claims_replaced :
   exists (s0 : sys) (evs : list event) (r : N),
-    Inv s0 /\ (availz (avail s0) r < cmd_used r (db (run s0 evs)))%N.
+    Inv s0 /\ (availz (avail s0) r < cmd_used r (db (run_gen false false s0 evs)))%N.
 Proof. exact resources_full_refuted_claims_replaced. Qed.
 
 Theorem C12_resources_full_refuted_row_reset :
   exists (s0 : sys) (evs : list event) (r : N),
-    Inv s0 /\ (availz (avail s0) r < cmd_used r (db (run s0 evs)))%N /\
-    exists x, nth_error (db (run s0 evs)) 2 = Some x /\ length (cmds x) = 2.
+    Inv s0 /\ (availz (avail s0) r < cmd_used r (db (run_gen false false s0 evs)))%N /\
+    exists x, nth_error (db (run_gen false false s0 evs)) 2 = Some x /\ length (cmds x) = 2.
 Proof. exact resources_full_refuted_row_reset. Qed.
 
-(* PARTIAL: for every start state satisfying Inv (tables agree with what executes, resource
-   names per step distinct, nothing over-committed) and every history in which no step whose job
-   is in flight (command executing, or hash check under way) is declared again (`quiet`): for every resource r the units held by
-   executing commands never exceed what was made available (undefined = 0). Covers dispatch
-   (guard), completion with any outcome, hash-check verdicts, reset_for_rerun, define (new,
-   full and partial recycle of non-executing steps), hold/release, mark_step_pending. *)
+(* PARTIAL (whatever the shape): for every start state satisfying Inv (tables agree with what executes,
+   resource names per step distinct, nothing over-committed) and every history in which no step whose job
+   is in flight (command executing, or hash check under way) is declared again (`quiet`): for every
+   resource r the units held by executing commands never exceed what was made available (undefined = 0).
+   Covers dispatch (guard), completion with any outcome, hash-check verdicts, reset_for_rerun, define
+   (new, full and partial recycle of non-executing steps), hold/release, mark_step_pending. *)
 Theorem C12_resources_never_overcommitted_partial :
   forall (s0 : sys) (evs : list event), Inv s0 -> quiet s0 evs ->
     forall r, (cmd_used r (db (run s0 evs)) <= availz (avail s0) r)%N.
-Proof. exact resources_never_overcommitted_partial_proof. Qed.
+Proof.
+  exact (fun s0 evs HI Hq =>
+    resources_never_overcommitted_partial_proof recycle_keeps_inflight define_rejects_inflight s0 evs HI (or_intror Hq)).
+Qed.
 
 (* and the SUM computed by the dispatch guard is then the true usage *)
 Theorem C12_db_sum_within_availability_partial :
   forall (s0 : sys) (evs : list event), Inv s0 -> quiet s0 evs ->
     forall r, used r (db (run s0 evs)) = cmd_used r (db (run s0 evs)) /\
               (used r (db (run s0 evs)) <= availz (avail s0) r)%N.
-Proof. exact db_sum_within_availability_partial. Qed.
+Proof.
+  exact (fun s0 evs HI Hq =>
+    db_sum_within_availability_partial recycle_keeps_inflight define_rejects_inflight s0 evs HI (or_intror Hq)).
+Qed.
+
+(* with either repair the SUM of the guard is the true usage in EVERY history *)
+Theorem C12_db_sum_within_availability :
+  forall keep rej, keep || rej = true ->
+  forall (s0 : sys) (evs : list event), Inv s0 ->
+    forall r, used r (db (run_gen keep rej s0 evs)) = cmd_used r (db (run_gen keep rej s0 evs)) /\
+              (used r (db (run_gen keep rej s0 evs)) <= availz (avail s0) r)%N.
+Proof.
+  exact (fun keep rej H s0 evs HI => db_sum_within_availability_partial keep rej s0 evs HI (or_introl H)).
+Qed.
 
 (* Unconditional (all histories, recycling included): an executing command never holds a unit of
    a resource that is not defined, and the dispatch decision rejects such a step. *)
@@ -63,12 +97,12 @@ Theorem C12_undefined_resource_never_runs :
   forall (s0 : sys) (evs : list event),
     Uall (avail s0) (db s0) ->
     forall x m e, In x (db (run s0 evs)) -> In m (cmds x) -> In e (held m) -> lookup (fst e) (avail s0) <> None.
-Proof. exact undefined_resource_never_runs_proof. Qed.
+Proof. exact (undefined_resource_never_runs_proof recycle_keeps_inflight define_rejects_inflight). Qed.
 
 Theorem C12_undefined_blocks_dispatch :
   forall s i x e, nth_error (db s) i = Some x -> has_hash x = false -> In e (rclaims x) ->
     lookup (fst e) (avail s) = None -> step s (EDispatch i) = None.
-Proof. exact undefined_blocks_dispatch. Qed.
+Proof. exact (undefined_blocks_dispatch recycle_keeps_inflight define_rejects_inflight). Qed.
 
 (* ---- holds -------------------------------------------------------------------------------- *)
 
@@ -80,7 +114,7 @@ Theorem C12_held_step_does_not_run :
     st x = Pending /\ attached x = true /\
     forall a, anc (db s) i a ->
       exists ax, nth_error (db s) a = Some ax /\ holding ax = 0%N /\ (st ax = Running \/ st ax = Succeeded).
-Proof. exact dispatch_running_ancestors_ok. Qed.
+Proof. exact (dispatch_running_ancestors_ok recycle_keeps_inflight define_rejects_inflight). Qed.
 
 (* The hash-check bypass (_has_hash AND _safe_ignoring_hold): the step goes to CHECKING, no
    command is started anywhere, every ancestor is RUNNING or SUCCEEDED; a mismatch drops the
@@ -90,12 +124,12 @@ Theorem C12_checking_runs_no_command :
     map cmds (db s') = map cmds (db s) /\
     (exists y, nth_error (db s') i = Some y /\ st y = Checking) /\
     forall a, anc (db s) i a -> exists ax, nth_error (db s) a = Some ax /\ (st ax = Running \/ st ax = Succeeded).
-Proof. exact checking_runs_no_command. Qed.
+Proof. exact (checking_runs_no_command recycle_keeps_inflight define_rejects_inflight). Qed.
 
 Theorem C12_mismatch_drops_hash :
   forall s i s', step s (ECheckDone i CMismatch) = Some s' ->
     exists y, nth_error (db s') i = Some y /\ has_hash y = false /\ st y = Pending.
-Proof. exact mismatch_drops_hash. Qed.
+Proof. exact (mismatch_drops_hash recycle_keeps_inflight define_rejects_inflight). Qed.
 
 (* FULL statement in terms of what the property talks about (open hold blocks of executing
    commands): *)
@@ -105,33 +139,57 @@ Definition C12_hold_full : Prop :=
     forall i x, nth_error (db s) i = Some x -> has_hash x = false -> step s (EDispatch i) <> None ->
       forall a ax m, anc (db s) i a -> nth_error (db s) a = Some ax -> In m (cmds ax) -> depth m = 0%N.
 
-(* FALSE as modelled: after_recycle zeroes _holding of an executing step inside its hold block. *)
+Theorem C12_hold_full_iff_repaired : C12_hold_full <-> C12_repaired = true.
+Proof. exact (hold_full_iff_repaired recycle_keeps_inflight define_rejects_inflight). Qed.
+
+(* with either repair, for EVERY history of hold / release / define / recycle / complete / reset /
+   dispatch events: when a command starts, no ancestor's executing command has an open hold block *)
+Theorem C12_held_step_does_not_run_all_histories :
+  forall keep rej, keep || rej = true ->
+  forall (s0 : sys) (evs : list event), Inv s0 ->
+    let s := run_gen keep rej s0 evs in
+    forall i x, nth_error (db s) i = Some x -> has_hash x = false -> step_gen keep rej s (EDispatch i) <> None ->
+      forall a ax m, anc (db s) i a -> nth_error (db s) a = Some ax -> In m (cmds ax) -> depth m = 0%N.
+Proof. exact hold_full_of_repaired. Qed.
+
+(* FALSE of the unrepaired shape: after_recycle zeroes _holding of an executing step inside its hold block. *)
 Theorem C12_hold_full_refuted :
   exists (s0 : sys) (evs : list event) (i a : nat) (x ax : row) (m : cmd),
-    Inv s0 /\ let s := run s0 evs in
-    nth_error (db s) i = Some x /\ has_hash x = false /\ step s (EDispatch i) <> None /\
+    Inv s0 /\ let s := run_gen false false s0 evs in
+    nth_error (db s) i = Some x /\ has_hash x = false /\ step_gen false false s (EDispatch i) <> None /\
     creator x = Some a /\ nth_error (db s) a = Some ax /\ In m (cmds ax) /\ depth m = 1%N.
 Proof. exact hold_full_refuted. Qed.
 
-(* PARTIAL: same hypothesis as for resources. *)
+(* PARTIAL (whatever the shape): same hypothesis as for resources. *)
 Theorem C12_held_step_does_not_run_partial :
   forall (s0 : sys) (evs : list event), Inv s0 -> quiet s0 evs ->
     let s := run s0 evs in
     forall i x, nth_error (db s) i = Some x -> has_hash x = false -> step s (EDispatch i) <> None ->
       forall a ax m, anc (db s) i a -> nth_error (db s) a = Some ax -> In m (cmds ax) -> depth m = 0%N.
-Proof. exact held_step_does_not_run_partial_proof. Qed.
+Proof.
+  exact (fun s0 evs HI Hq =>
+    held_step_does_not_run_partial_proof recycle_keeps_inflight define_rejects_inflight s0 evs HI (or_intror Hq)).
+Qed.
+
+(* the three refuting histories are harmless under either repair *)
+Theorem C12_witnesses_harmless_when_repaired :
+  forall keep rej, keep || rej = true ->
+    (cmd_used 1 (db (run_gen keep rej sys0 witness_claims_replaced)) <= 1)%N /\
+    (cmd_used 1 (db (run_gen keep rej sys0 witness_row_reset)) <= 1)%N /\
+    step_gen keep rej (run_gen keep rej sys0 witness_hold_zeroed) (EDispatch 3) = None.
+Proof. exact witnesses_harmless_when_repaired. Qed.
 
 Theorem C12_release_below_zero_rejected :
   forall s i k x, nth_error (db s) i = Some x -> holding x = 0%N ->
     step s (ERelease i k) = None /\ apply s (ERelease i k) = s.
-Proof. exact release_below_zero_rejected_proof. Qed.
+Proof. exact (release_below_zero_rejected_proof recycle_keeps_inflight define_rejects_inflight). Qed.
 
 Theorem C12_hold_release_counter :
   forall s i k x m, nth_error (db s) i = Some x -> nth_error (cmds x) k = Some m ->
     (exists y, nth_error (db (apply s (EHold i k))) i = Some y /\ holding y = (holding x + 1)%N) /\
     (holding x <> 0%N ->
        exists y, nth_error (db (apply s (ERelease i k))) i = Some y /\ holding y = (holding x - 1)%N).
-Proof. exact hold_release_counter. Qed.
+Proof. exact (hold_release_counter recycle_keeps_inflight define_rejects_inflight). Qed.
 
 (* Trigger step_reset_holding: every write of a state other than RUNNING leaves _holding = 0; in
    particular after a command ended with any outcome (failure inside a hold block included). *)
@@ -139,14 +197,14 @@ Theorem C12_holding_reset_on_leaving_running :
   (forall ns x, ns <> Running -> holding (set_state_tr ns x) = 0%N) /\
   (forall s i k o s', step s (EComplete i k o) = Some s' ->
      exists y, nth_error (db s') i = Some y /\ holding y = 0%N /\ st y = state_of_outcome o /\ st y <> Running).
-Proof. exact holding_reset_on_leaving_running_proof. Qed.
+Proof. exact (holding_reset_on_leaving_running_proof recycle_keeps_inflight define_rejects_inflight). Qed.
 
 (* ... and a zeroed counter does not free the children of a FAILED (or PENDING, CHECKING) creator *)
 Theorem C12_failed_creator_blocks_children :
   forall s i x c cx, nth_error (db s) i = Some x -> has_hash x = false -> creator x = Some c ->
     nth_error (db s) c = Some cx -> (st cx = Failed \/ st cx = Pending \/ st cx = Checking) ->
     step s (EDispatch i) = None.
-Proof. exact failed_creator_blocks_children. Qed.
+Proof. exact (failed_creator_blocks_children recycle_keeps_inflight define_rejects_inflight). Qed.
 
 (* The seed expressions of FILL_SAFE_UPDATE agree with its recursive expressions. *)
 Theorem C12_safe_formulas_consistent :
